@@ -3,6 +3,10 @@ EXTENDS BookGraph, Json, IOUtils
 CONSTANT DIAG
 VARIABLES l, saved
 Tr == ndJsonDeserialize(IOEnv.TRACE)
+\* the book cost parameters of the recorded run (first line of every trace file), substituted for BookGraph's constants
+TrDepthCost == Tr[1].cfg[1]
+TrOwnCost == Tr[1].cfg[2]
+TrOtherCost == Tr[1].cfg[3]
 Chk(name, cond, info) == IF cond THEN TRUE ELSE (DIAG /\ PrintT(<<"MISMATCH", name, l, info>>))
 Ev(e) == l <= Len(Tr) /\ Tr[l].e = e /\ l' = l + 1
 \* parent references are kept in a set ordered by pointer value: compare them as sets
